@@ -29,6 +29,11 @@ Definition s2 (C : list (list R)) (i : nat) : R := lsum (map (fun y => co i y * 
 Definition wf (d : nat) (C : list (list R)) : Prop := Forall (fun y => length y = d) C.
 
 Ltac normT := change (T RN) with R in *.
+(* rewrite the head of an option-monad bind with an equation that holds up to conversion *)
+Ltac step_bind H :=
+  match goal with
+  | |- @obind _ _ ?m _ = _ => let E := fresh "E" in assert (E : m = _) by (exact H); rewrite E; clear E; cbn [obind]
+  end.
 
 (* ------------------------------------------------------------------ small facts *)
 Lemma nlen_INR {A} (l : list A) : @nlen RN A l = INR (length l).
@@ -308,4 +313,270 @@ Proof.
   - intros i Hi. rewrite (vadd_length _ _ E), Lm in Hi.
     rewrite (co_vadd _ _ i E) by (rewrite Lm; exact Hi). rewrite co_vscale, co_vsub by lia.
     rewrite !co_meanv by assumption. rewrite s1_app, app_length, plus_INR. cbn [length INR]. field. lra.
+Qed.
+
+(* ------------------------------------------------------------------ the structural invariant *)
+Record Struct (d : nat) (s : chR) (D : data) : Prop := {
+  st_wf : Forall (fun p => length (fst p) = d) D;
+  st_dim : h_dim s = d;
+  st_n : h_n s = INR (length D);
+  st_mu : D <> [] -> h_mu s = meanv d (pts D);
+  st_mu0 : D = [] -> h_mu s = [];
+  st_nodup : NoDup (keys (h_CD s));
+  st_keys : forall l, In l (keys (h_CD s)) <-> In l (map snd D);
+  st_stats : forall l c, cd_get (h_CD s) l = Some c -> cluster_ok d (members D l) c;
+  st_wgss : h_WGSS s = lsum (map CPof (h_CD s)) }.
+
+Definition sepf (mu : list R) (kc : nat * cstatR) : R := c_n (snd kc) * @sq RN (vsubR (c_v (snd kc)) mu).
+
+Lemma criterion_sum (k : nat) (n : R) (SEP SEP' : list R) (W : R) :
+  vsumR SEP = vsumR SEP' -> @criterion RN k n SEP W = @criterion RN k n SEP' W.
+Proof. intros H. unfold criterion. rewrite H. reflexivity. Qed.
+
+Lemma vmean_some d (C : list (list R)) : C <> [] -> @vmean RN C d = Some (meanv d C).
+Proof.
+  intros Hne. unfold vmean. rewrite nlen_INR. normT. rewrite odiv_some by (pose proof (INR_pos_of_nonempty C Hne); lra).
+  reflexivity.
+Qed.
+
+(* the batch index, computed from a dictionary that satisfies the structural invariant *)
+Lemma batch_from_stats d (s : chR) (D : data) : Struct d s D ->
+  @batch_ch RN D d = @criterion RN (length (h_CD s)) (h_n s) (map (sepf (h_mu s)) (h_CD s)) (h_WGSS s).
+Proof.
+  intros [Hwf Hdim Hn Hmu Hmu0 Hnd Hkeys Hstats Hw].
+  unfold batch_ch.
+  assert (Perm : Permutation (@labels_of RN D) (keys (h_CD s))).
+  { apply NoDup_Permutation; [apply NoDup_nodup|exact Hnd|].
+    intros l. unfold labels_of. rewrite nodup_In. symmetry. apply Hkeys. }
+  assert (Lk : length (@labels_of RN D) = length (h_CD s)).
+  { rewrite (Permutation_length Perm). unfold keys. apply map_length. }
+  rewrite Lk. unfold criterion.
+  destruct (Nat.ltb (length (h_CD s)) 2) eqn:Ek; [reflexivity|].
+  apply Nat.ltb_ge in Ek.
+  assert (Dne : D <> []).
+  { intros ->. cbn in Lk. lia. }
+  assert (Pne : pts D <> []) by (unfold pts; destruct D; [congruence|discriminate]).
+  change (@vmean RN (map fst D) d) with (@vmean RN (pts D) d).
+  rewrite (vmean_some d (pts D) Pne). cbn [obind].
+  rewrite <- (Hmu Dne).
+  set (mu := h_mu s).
+  set (g := fun l : nat => (INR (length (members D l)) * @sq RN (vsubR (meanv d (members D l)) mu),
+                            css d (members D l))).
+  rewrite (omap_some _ g).
+  2:{ intros l Hl. unfold labels_of in Hl. rewrite nodup_In in Hl.
+      apply members_nonempty in Hl. change (@cluster RN D l) with (members D l).
+      rewrite (vmean_some d (members D l) Hl). cbn [obind]. unfold g. rewrite nlen_INR.
+      rewrite vsum_lsum. reflexivity. }
+  cbn [obind].
+  assert (EB : vsumR (map fst (map g (@labels_of RN D))) = vsumR (map (sepf mu) (h_CD s))).
+  { rewrite !vsum_lsum, map_map. rewrite (lsum_perm _ _ (Permutation_map (fun l => fst (g l)) Perm)).
+    unfold keys. rewrite map_map. apply lsum_map_ext. intros [k c] Hin. cbn [fst snd].
+    pose proof (cd_get_nodup _ _ _ Hnd Hin) as G. destruct (Hstats _ _ G) as [On Ov _ _].
+    unfold sepf. cbn [fst snd]. rewrite On, Ov. reflexivity. }
+  assert (EW : vsumR (map snd (map g (@labels_of RN D))) = h_WGSS s).
+  { rewrite Hw, vsum_lsum, map_map. rewrite (lsum_perm _ _ (Permutation_map (fun l => snd (g l)) Perm)).
+    unfold keys. rewrite map_map. apply lsum_map_ext. intros [k c] Hin. cbn [fst snd].
+    pose proof (cd_get_nodup _ _ _ Hnd Hin) as G. destruct (Hstats _ _ G) as [_ _ OCP _].
+    unfold CPof. cbn [snd]. rewrite OCP. reflexivity. }
+  normT. rewrite EB, EW. rewrite nlen_INR, <- Hn.
+  destruct (@neqb RN (h_WGSS s) n0); [reflexivity|].
+  destruct (@odiv RN (vsumR (map (sepf mu) (h_CD s))) (h_WGSS s)) as [q|]; cbn [obind]; [|reflexivity].
+  rewrite obind_some_id. reflexivity.
+Qed.
+
+(* ------------------------------------------------------------------ add_sample preserves the invariant *)
+Lemma criterion_defined (k : nat) (n : R) (SEP : list R) (W : R) : exists cr, @criterion RN k n SEP W = Some cr.
+Proof.
+  unfold criterion. destruct (Nat.ltb k 2) eqn:Ek; [eexists; reflexivity|]. apply Nat.ltb_ge in Ek.
+  destruct (@neqb RN W n0) eqn:EW; [eexists; reflexivity|].
+  cbn in EW. apply Reqb_false in EW. rewrite (odiv_some _ _ EW). cbn [obind].
+  assert (Hk : @nsub RN (@nofZ RN (Z.of_nat k)) n1 <> 0).
+  { cbn. rewrite <- INR_IZR_INZ. assert (2 <= INR k) by (apply (le_INR 2); exact Ek). lra. }
+  rewrite (odiv_some _ _ Hk). cbn [obind]. eexists; reflexivity.
+Qed.
+
+Definition substf (F : cstatR -> R) (l : nat) (cd : cstatR) (kc : nat * cstatR) : R :=
+  let '(i, c) := kc in if Nat.eqb i l then F cd else F c.
+
+Lemma substf_absent F l cd (cd0 : list (nat * cstatR)) : ~ In l (keys cd0) ->
+  map (substf F l cd) cd0 = map (fun kc => F (snd kc)) cd0.
+Proof.
+  induction cd0 as [|[k c0] cd0 IH]; cbn; [reflexivity|]. intros H.
+  destruct (Nat.eqb_spec k l) as [->|Hne]; [exfalso; apply H; left; reflexivity|]. rewrite IH by tauto. reflexivity.
+Qed.
+
+Lemma substf_present F l cd (cd0 : list (nat * cstatR)) : NoDup (keys cd0) -> In l (keys cd0) ->
+  map (substf F l cd) cd0 = map (fun kc => F (snd kc)) (cd_set cd0 l cd).
+Proof.
+  induction cd0 as [|[k c0] cd0 IH]; cbn; [tauto|]. intros ND Hin. inversion ND as [|? ? Hk ND']; subst.
+  destruct (Nat.eqb_spec k l) as [->|Hne]; cbn.
+  - f_equal. apply substf_absent. exact Hk.
+  - f_equal. apply IH; [exact ND'|]. destruct Hin as [E|E]; [congruence|exact E].
+Qed.
+
+Lemma cd_set_length_present (cd0 : list (nat * cstatR)) l c : In l (keys cd0) -> length (cd_set cd0 l c) = length cd0.
+Proof. intros H. rewrite <- (map_length fst (cd_set cd0 l c)). fold (keys (cd_set cd0 l c)). rewrite cd_set_present by exact H. apply map_length. Qed.
+
+Lemma NoDup_snoc {A} (l : list A) (a : A) : NoDup l -> ~ In a l -> NoDup (l ++ [a]).
+Proof. intros H1 H2. apply (Permutation_NoDup (l := a :: l)); [apply Permutation_cons_append|constructor; assumption]. Qed.
+
+Lemma length_zero_nil {A} (l : list A) : length l = 0%nat -> l = [].
+Proof. destruct l; [reflexivity|discriminate]. Qed.
+
+Theorem add_sample_inv d (s : chR) (D : data) (x : list R) (l : nat) :
+  Struct d s D -> length x = d ->
+  exists p, @add_sample RN s x l = Some p /\
+            Struct d (@update RN s p) (D ++ [(x, l)]) /\
+            @batch_ch RN (D ++ [(x, l)]) d = Some (h_crit (@update RN s p)).
+Proof.
+  intros St Hx. pose proof St as [Hwf Hdim Hn Hmu Hmu0 Hnd Hkeys Hstats Hw].
+  set (D' := D ++ [(x, l)]).
+  assert (Wf' : Forall (fun p => length (fst p) = d) D').
+  { apply Forall_app. split; [exact Hwf|]. constructor; [exact Hx|constructor]. }
+  (* the new global mean *)
+  assert (Emu : exists mu', (match h_mu s with
+                             | [] => Some x
+                             | mu => inv <- @odiv RN n1 (@nadd RN (h_n s) n1) ;; Some (@vadd RN mu (@vscale RN inv (@vsub RN x mu)))
+                             end) = Some mu' /\ mu' = meanv d (pts D')).
+  { unfold D'. rewrite pts_app. destruct D as [|p0 D0] eqn:ED.
+    - rewrite (Hmu0 eq_refl). eexists. split; [reflexivity|]. cbn [pts map app]. symmetry. apply meanv_single. exact Hx.
+    - rewrite <- ED in *. assert (Dne : D <> []) by (rewrite ED; discriminate).
+      assert (Pne : pts D <> []) by (unfold pts; rewrite ED; discriminate).
+      pose proof (pts_wf d D Hwf) as PW.
+      destruct (h_mu s) as [|m0 mu] eqn:Em.
+      + (* only possible when d = 0 *)
+        pose proof (meanv_length d (pts D) PW) as L. rewrite <- (Hmu Dne) in L. cbn in L.
+        assert (Lx : length x = 0%nat) by (rewrite Hx; symmetry; exact L).
+        eexists. split; [reflexivity|]. rewrite (length_zero_nil x Lx). symmetry. apply length_zero_nil.
+        rewrite meanv_length; [symmetry; exact L|]. apply wf_app; [exact PW|exact L].
+      + rewrite (Hmu Dne).
+        assert (Hn1 : @nadd RN (h_n s) n1 <> 0).
+        { cbn. rewrite Hn. pose proof (pos_INR (length D)). lra. }
+        rewrite (odiv_some _ _ Hn1). cbn [obind]. eexists. split; [reflexivity|].
+        cbn [nadd RN n1]. rewrite Hn. replace (length D) with (length (pts D)) by (unfold pts; apply map_length).
+        apply meanv_snoc; assumption. }
+  destruct Emu as [mu' [Emu1 Emu2]].
+  (* the cluster that gains the sample *)
+  assert (Est : exists cd cpd, @add_stats RN s x l = Some (cd, cpd) /\
+                               cluster_ok d (members D' l) cd /\
+                               h_WGSS s + cpd = lsum (map CPof (cd_set (h_CD s) l cd)) /\
+                               (cd_get (h_CD s) l = None -> cd = @mkCstat RN 1 x 0 (repeat 0 d))).
+  { unfold D'. rewrite members_app_same. destruct (cd_get (h_CD s) l) as [c|] eqn:G.
+    - pose proof (Hstats _ _ G) as Ok.
+      assert (Mne : members D l <> []) by (apply members_nonempty, Hkeys; eapply cd_get_some_key; exact G).
+      destruct (add_stats_existing s d (members D l) c x l (members_wf d D l Hwf) Mne Hx G Ok) as [cd [cpd [E1 [E2 E3]]]].
+      exists cd, cpd. split; [exact E1|]. split; [exact E2|]. split; [|discriminate].
+      rewrite (cd_set_sum_present _ _ _ _ G). rewrite Hw. destruct Ok as [_ _ OCP _]. destruct E2 as [_ _ OCP' _].
+      rewrite OCP, OCP', E3. lra.
+    - assert (Mem : members D l = []).
+      { destruct (members D l) eqn:EM; [reflexivity|]. exfalso.
+        assert (In l (map snd D)) by (apply members_nonempty; rewrite EM; discriminate).
+        apply Hkeys in H. apply cd_get_none in G. contradiction. }
+      unfold add_stats. rewrite G. rewrite Hdim. eexists. eexists. split; [reflexivity|].
+      rewrite Mem. cbn [app]. split; [apply cluster_ok_first; exact Hx|]. split; [|reflexivity].
+      rewrite (cd_set_sum_absent _ _ _ G). rewrite Hw. cbn. lra. }
+  destruct Est as [cd [cpd [Est1 [Est2 [Est3 Est4]]]]].
+  (* the new dictionary *)
+  set (CD' := cd_set (h_CD s) l cd).
+  assert (Keys' : forall l0, In l0 (keys CD') <-> In l0 (map snd D')).
+  { intros l0. unfold D'. rewrite map_app, in_app_iff. cbn [map snd In].
+    unfold CD'. destruct (cd_get (h_CD s) l) as [c|] eqn:G.
+    - rewrite cd_set_present by (eapply cd_get_some_key; exact G). rewrite Hkeys.
+      split; [tauto|]. intros [H|[H|[]]]; [exact H|]. subst l0. apply Hkeys. eapply cd_get_some_key; exact G.
+    - apply cd_get_none in G. rewrite (cd_set_absent _ _ _ G). unfold keys. rewrite map_app, in_app_iff. cbn [map fst In].
+      fold (keys (h_CD s)). rewrite Hkeys. tauto. }
+  assert (Nd' : NoDup (keys CD')).
+  { unfold CD'. destruct (cd_get (h_CD s) l) as [c|] eqn:G.
+    - rewrite cd_set_present by (eapply cd_get_some_key; exact G). exact Hnd.
+    - apply cd_get_none in G. rewrite (cd_set_absent _ _ _ G). unfold keys. rewrite map_app. cbn [map fst].
+      apply NoDup_snoc; assumption. }
+  assert (Stats' : forall l0 c, cd_get CD' l0 = Some c -> cluster_ok d (members D' l0) c).
+  { intros l0 c G0. unfold CD' in G0. destruct (Nat.eq_dec l0 l) as [->|Hne].
+    - rewrite cd_get_set_same in G0. injection G0 as <-. exact Est2.
+    - rewrite (cd_get_set_other _ _ _ _ Hne) in G0. unfold D'. rewrite (members_app_other _ _ _ _ Hne). apply Hstats. exact G0. }
+  (* the criterion *)
+  set (isnew := match cd_get (h_CD s) l with None => true | Some _ => false end).
+  set (k := if isnew then S (length (h_CD s)) else length (h_CD s)).
+  set (SEP := (if isnew then [@sq RN (@vsub RN x mu')] else []) ++
+              map (fun kc : nat * cstatR => let '(i, c) := kc in
+                                            if Nat.eqb i l then @nmul RN (c_n cd) (@sq RN (@vsub RN (c_v cd) mu'))
+                                            else @nmul RN (c_n c) (@sq RN (@vsub RN (c_v c) mu'))) (h_CD s)).
+  destruct (criterion_defined k (@nadd RN (h_n s) n1) SEP (@nadd RN (h_WGSS s) cpd)) as [cr Ecr].
+  exists (@mkNewp RN (@nadd RN (h_n s) n1) mu' cr l cd cpd None).
+  assert (Eadd : @add_sample RN s x l = Some (@mkNewp RN (@nadd RN (h_n s) n1) mu' cr l cd cpd None)).
+  { unfold add_sample. cbv zeta. step_bind Emu1. step_bind Est1. cbv beta iota. step_bind Ecr. reflexivity. }
+  split; [exact Eadd|].
+  assert (St' : Struct d (@update RN s (@mkNewp RN (@nadd RN (h_n s) n1) mu' cr l cd cpd None)) D').
+  { unfold update. cbn [p_label p_CD p_CPdiff p_label2 p_n p_mu p_crit]. fold CD'.
+    constructor; cbn [h_dim h_n h_mu h_CD h_WGSS h_crit].
+    - exact Wf'.
+    - exact Hdim.
+    - cbn [nadd RN n1]. rewrite Hn. unfold D'. rewrite app_length, plus_INR. cbn. lra.
+    - intros _. exact Emu2.
+    - intros E. unfold D' in E. destruct D; discriminate.
+    - exact Nd'.
+    - exact Keys'.
+    - exact Stats'.
+    - cbn [nadd RN]. exact Est3. }
+  split; [exact St'|].
+  rewrite (batch_from_stats d _ D' St').
+  unfold update. cbn [p_label p_CD p_CPdiff p_label2 p_n p_mu p_crit h_dim h_n h_mu h_CD h_WGSS h_crit]. fold CD'.
+  rewrite <- Ecr.
+  assert (Ek : length CD' = k).
+  { unfold CD', k, isnew. destruct (cd_get (h_CD s) l) as [c|] eqn:G.
+    - apply cd_set_length_present. eapply cd_get_some_key; exact G.
+    - apply cd_get_none in G. rewrite (cd_set_absent _ _ _ G), app_length. cbn. lia. }
+  rewrite Ek. apply criterion_sum.
+  rewrite !vsum_lsum. unfold SEP, CD', isnew.
+  change (fun kc : nat * cstatR => let '(i, c) := kc in
+            if Nat.eqb i l then @nmul RN (c_n cd) (@sq RN (@vsub RN (c_v cd) mu'))
+            else @nmul RN (c_n c) (@sq RN (@vsub RN (c_v c) mu')))
+    with (substf (fun c : cstatR => c_n c * @sq RN (vsubR (c_v c) mu')) l cd).
+  change (sepf mu') with (fun kc : nat * cstatR => (fun c : cstatR => c_n c * @sq RN (vsubR (c_v c) mu')) (snd kc)).
+  destruct (cd_get (h_CD s) l) as [c|] eqn:G.
+  - cbn [app]. rewrite (substf_present _ l cd (h_CD s) Hnd) by (eapply cd_get_some_key; exact G). reflexivity.
+  - pose proof G as G'. apply cd_get_none in G'. rewrite (substf_absent _ l cd (h_CD s) G').
+    rewrite (cd_set_absent _ _ _ G'). rewrite map_app, !lsum_app. rewrite (Est4 eq_refl).
+    match goal with |- ?A + _ = _ + ?A => generalize A; intros A0 end.
+    unfold lsum. cbn [map fold_right snd c_n c_v]. lra.
+Qed.
+
+(* ------------------------------------------------------------------ any sequence of add_sample / update *)
+Definition add_step (oh : option chR) (xl : list R * nat) : option chR :=
+  match oh with
+  | Some h => option_map (@update RN h) (@add_sample RN h (fst xl) (snd xl))
+  | None => None
+  end.
+
+Lemma struct_init d : Struct d (@ch_init RN d) [].
+Proof.
+  constructor; cbn; auto.
+  - intros H0; congruence.
+  - constructor.
+  - intros l0; tauto.
+  - intros l0 c H0; discriminate.
+Qed.
+
+Lemma adds_from d : forall (E : data) (s0 : chR) (D0 : data),
+  Struct d s0 D0 -> @batch_ch RN D0 d = Some (h_crit s0) -> Forall (fun p => length (fst p) = d) E ->
+  exists s, fold_left add_step E (Some s0) = Some s /\ Struct d s (D0 ++ E) /\ @batch_ch RN (D0 ++ E) d = Some (h_crit s).
+Proof.
+  induction E as [|[x l] E IH]; intros s0 D0 St Cr HE.
+  - exists s0. rewrite app_nil_r. cbn. auto.
+  - apply Forall_cons_iff in HE. destruct HE as [Hx HE']. cbn [fst] in Hx.
+    destruct (add_sample_inv d s0 D0 x l St Hx) as [p [Ep [St' Cr']]].
+    cbn [fold_left add_step fst snd]. rewrite Ep. cbn [option_map].
+    destruct (IH _ _ St' Cr' HE') as [s [F [S2 C2]]].
+    exists s. rewrite <- app_assoc in S2, C2. cbn [app] in S2, C2. auto.
+Qed.
+
+(* C15, first sentence, for add_sample: after any sequence of add_sample/update operations on
+   well-formed samples every operation was defined and the tracked value is the batch index *)
+Theorem icvi_adds_equal_batch d (D : data) : Forall (fun p => length (fst p) = d) D ->
+  exists s, fold_left add_step D (Some (@ch_init RN d)) = Some s /\
+            @batch_ch RN D d = Some (h_crit s) /\ h_n s = INR (length D).
+Proof.
+  intros H. destruct (adds_from d D (@ch_init RN d) [] (struct_init d)) as [s [F [St Cr]]]; [|exact H|].
+  - unfold batch_ch. cbn. reflexivity.
+  - exists s. cbn [app] in *. split; [exact F|]. split; [exact Cr|]. destruct St; assumption.
 Qed.
